@@ -17,6 +17,22 @@ RULE = ("component level: all strings of length <= L over the 16-symbol class al
         "side conditions; predicate str(URL(s)) == s; distinct = distinct string; non-trivial = contains an escape")
 
 
+def twins(s):
+    """other spellings around the same path?query#fragment"""
+    import re
+    m = re.match(r"^(?:([A-Za-z][A-Za-z0-9+.-]*):)?(?://([^/?#]*))?(.*)$", s, re.S)
+    sc, auth, rest = m.group(1), m.group(2), m.group(3)
+    out = []
+    if not rest.startswith("/"):
+        return out
+    if auth is None:
+        out.append("http://twin.example" + rest)
+    else:
+        out.append(rest)
+        out.append("x:" + rest)
+    return [t for t in out if t != s and not t.startswith("//")]
+
+
 def run(ctx):
     L = 3 if ctx.quick else 4
     strs = list(gens.all_strings(gens.SQ_ALPHABET, L)) + list(gens.escapes_in_context())
@@ -35,10 +51,18 @@ def run(ctx):
     urls = sorted({gens.compose_canonical(t) for t in keep})
     ctx.histogram = {"candidates": len(cands), "canonical": len(keep), "distinct_urls": len(urls)}
     urls = [f["witness"][0][1][1] for f in ctx.findings if f.get("witness")] + urls
-    reqs = [("observe", [0, [["push", ["url", s]]]]) for s in urls]
-    outs = core.check_suite(ctx, "SU-canonical-urls", reqs, split=True,
-                            nontrivial=lambda rs: {repr(a) for _, a in rs if "%" in repr(a)},
-                            classes=ctx.histogram)
+    # every canonical URL is parsed right after its twins: the same path, query and fragment under another authority,
+    # without one and under another scheme (whatever the parser remembers about one spelling must not leak into the next)
+    reqs, at = [], []
+    for s in urls:
+        for tw in twins(s):
+            reqs.append(("observe", [0, [["push", ["url", tw]]]]))
+        at.append(len(reqs))
+        reqs.append(("observe", [0, [["push", ["url", s]]]]))
+    allouts = core.check_suite(ctx, "SU-canonical-urls", reqs, split=True,
+                               nontrivial=lambda rs: {repr(a) for _, a in rs if "%" in repr(a)},
+                               classes=ctx.histogram)
+    outs = {k: [v[i] for i in at] for k, v in allouts.items()}
     for k in [k for k in outs if k != "model"]:
         args = [enc(s) + " " + outs[k][i] for i, s in enumerate(urls)]
         ok = core.eval_pred(ctx, "c04_url_pred", args)
